@@ -168,6 +168,26 @@ M('B1', 'src/xdoctest/parser.py',
                     pass""", ['C20'], 'old-style detection disabled')
 
 
+M('L2', 'src/xdoctest/parser.py',
+  """                elif line_indent < state_indent:
+                    curr_state = TEXT
+                else:
+                    curr_state = WANT""",
+  """                else:
+                    curr_state = WANT""", ['C13'], 'a de-indented line no longer ends a want')
+M('L3', 'src/xdoctest/parser.py', "                lineno += len(slines) + len(wlines)", "                lineno += len(slines)",
+  ['C13', 'C08'], 'running line counter skips wants')
+M('L4', 'src/xdoctest/parser.py',
+  """                        if prev_state == DCNT:
+                            # Hack to fix continuation issue
+                            curr_state = DCNT
+                        else:
+                            curr_state = WANT""",
+  """                        if True:
+                            # Hack to fix continuation issue
+                            curr_state = DCNT""", ['C13'], "a bare '...' under a '>>>' line taken as source instead of want")
+
+
 def make_copy():
     d = tempfile.mkdtemp(prefix='xv_mut_')
     shutil.copytree(os.path.join(REPO, 'src'), os.path.join(d, 'src'),
